@@ -18,6 +18,7 @@ type outcome struct {
 	leak         string   // quiescence: connections still open long after the last subscription ended
 	stats        client.Stats
 	aidExpired   []string
+	idleWaited   bool // waited out a pending idle timer on a reused connection with live subscriptions
 	joinedDial   int // subscriptions started while an un-acked connection of their tuple existed (probable dial joiners)
 }
 
@@ -113,7 +114,12 @@ func (w *world) probeConns(k int) {
 }
 
 func run(c Case) *outcome {
-	w := newWorld(c, clientCfg{})
+	cc := clientCfg{}
+	if c.Ping != nil {
+		cc.pingInterval = time.Duration(c.Ping.IntervalMs) * time.Millisecond
+		cc.pingTimeout = time.Duration(c.Ping.TimeoutMs) * time.Millisecond
+	}
+	w := newWorld(c, cc)
 	o := &outcome{w: w}
 	defer w.close()
 	if c.stepped() {
@@ -288,6 +294,44 @@ func (o *outcome) step(s Step) bool {
 				o.incon("client still counts dropped connections: stats=%+v healthy=%d", w.cl.Stats(), w.healthyConns())
 			}
 		}
+	case "ticks":
+		// let Key ping intervals pass
+		if c.Ping != nil {
+			time.Sleep(time.Duration(s.Key*c.Ping.IntervalMs) * time.Millisecond)
+		}
+	case "silence":
+		// The upstream stops answering pings on every connection of the silent tuples. The client must
+		// notice (PingTimeout) and tell exactly the subscriptions on those connections.
+		if c.Ping == nil {
+			return true
+		}
+		w.mu.Lock()
+		for _, k := range c.Ping.Silent {
+			w.pongSilent[k] = true
+		}
+		var victims []*subState
+		for i, st := range w.subs {
+			if c.silentTuple(c.Subs[i].Tuple) && st.started && st.returned && st.err == nil && !st.cancelIssued && st.terminalAt() < 0 && st.conn != nil && !st.conn.closed {
+				st.silenced = true
+				victims = append(victims, st)
+			}
+		}
+		w.mu.Unlock()
+		for _, st := range victims {
+			st := st
+			if !o.expect(fmt.Sprintf("sub %d is told that its connection stopped answering pings", st.i), func() bool { return st.terminalAt() >= 0 }) {
+				return false
+			}
+		}
+		// let the upstream see the dead connections go, so that later steps start from a settled state
+		o.aid("silent-conns-closed", func() bool {
+			for _, uc := range w.conns {
+				if c.silentTuple(uc.tuple) && uc.acked && !uc.closed {
+					return false
+				}
+			}
+			return true
+		})
 	case "idle":
 		if c.IdleMs > 0 {
 			time.Sleep(time.Duration(c.IdleMs)*2*time.Millisecond + 5*time.Millisecond)
@@ -392,6 +436,20 @@ func (o *outcome) finish() {
 		}
 	}
 	if len(o.liveness) == 0 && len(o.inconclusive) == 0 {
+		// A connection that was empty for a moment and then reused still has an idle timer pending. Give the
+		// timer the chance to fire while the new subscriptions are live (one-sided: too short only misses).
+		if c.IdleMs > 0 {
+			w.mu.Lock()
+			pending := false
+			for _, uc := range w.conns {
+				pending = pending || (uc.reused && !uc.closed && !uc.dropped && w.liveOn(uc) > 0)
+			}
+			w.mu.Unlock()
+			if pending {
+				o.idleWaited = true
+				time.Sleep(time.Duration(c.IdleMs)*time.Millisecond + 5*time.Millisecond)
+			}
+		}
 		w.probeConns(-1)
 		for i, st := range w.subs {
 			st := st
